@@ -182,14 +182,14 @@ PROPS = {
         'technique': 'named-parameter threading lint + must-adopt / control-dependence checks',
     },
     'C14': {
-        'rules': [rule('G10'), rule('W3'), rule('W1'), rule('G0'), rule('G14'), rule('G21'), rule('X20')],
+        'rules': [rule('G10'), rule('W3'), rule('W1'), rule('G0'), rule('G14'), rule('G21'), rule('X20'), rule('G22'), rule('G17', keep=['string-literal:'])],
         'explanation': 'Strict entries cannot succeed before end of input; bracket helpers demand both delimiters; no closing delimiter or '
                        'block-closing keyword is optional anywhere in the grammar (G10, G0); failures are mapped to Error::Parse '
                        'through the origin map of the parsed text and to Error::Preprocess with the path being read (W3), '
                        'identically for both grammars (W1). The preprocessor grammar is made strict by all_consuming in its caller and is '
                        'itself total (many0 of items), so a preprocessor-level fault is reported where the repetition stopped: at the start '
                        'of the first item that does not parse, never after the fault (G21).',
-        'decided': 'G10 G0 W3 W1 G21 X20 (the location of an Error::Parse is present: origin() has no None path for a position whose segment has an origin)',
+        'decided': 'G10 G0 W3 W1 G21 X20 G22 G17 (an unterminated block comment or string literal is a lexical fault: the closer is mandatory and not searched with a fallback; the location of an Error::Parse is present: origin() has no None path for a position whose segment has an origin)',
         'not_decided': 'that the Error::Parse position of the main grammar is not after the fault (GreedyError run-time maximum); that every '
                        'deletion makes some production fail',
         'assumptions': [],
@@ -365,7 +365,7 @@ PROPS = {
         'technique': 'type-graph reachability + per-handler effect summary (exactly-once emission)',
     },
     'C18': {
-        'rules': [rule('X9'), rule('X4')],
+        'rules': [rule('X9'), rule('X4'), rule('X13', keep=['re-preprocess'])],
         'explanation': 'strip_comments reaches every nested run unchanged (X9: includes, macro expansion, `include via macro); under the flag '
                        'the only arm whose behaviour changes is the Comment arm, which emits a separator in place of the comment so '
                        'that neighbouring tokens are not joined; no arm that emits non-comment text is disabled by the flag; whole-node '
